@@ -137,6 +137,14 @@ P['C17']={
  "panics":True,
  "required":[I+"LocalConfigFile.Validate:post:typed", I+"LocalConfigFile.Validate:post:resolved", I+"mergeAndValidateOIDCConfigs:post:no_override", I+"mergeAndValidateOIDCConfigs:pre@call:applyOIDCDefaults.config_nonnil", I+"applyOIDCDefaults:post:openid", I+"validateURLs:post:callbacks", I+"mergeAndValidateOIDCConfigs:panic:"],
  "note":"loading never panics (every instruction that can panic in Validate and its helpers, for any well-formed protojson tree); accepted implies every filter has a type, the openid scope is present, callback URIs parse and are not root; the generated ValidateAll and proto.Clone/Merge are trusted contracts"}
+RG="oidc.randomGenerator."
+P['C06']={
+ "functions":[RG+"generate","oidc.NewRandomGenerator"],
+ "refines":[RG+"GenerateSessionID",RG+"GenerateNonce",RG+"GenerateState",RG+"GenerateCodeVerifier"],
+ "posts":{"server.ExtAuthZFilter.Check":["err_no_verdict"]},
+ "required":[RG+"generate:post:crypto", RG+"GenerateSessionID:refine:SessionGenerator.GenerateSessionID.crypto", "server.ExtAuthZFilter.Check:pre@call:NewOIDCHandler.secure_generator", "oidc.NewRandomGenerator:post:secure"],
+ "assumptions":["A-CRYPTO: the bytes of distinct crypto/rand.Read calls are unpredictable and independent of each other and of everything else","A-S256 / oauth2.GenerateVerifier: the PKCE verifier comes from crypto/rand inside golang.org/x/oauth2 (trusted)"],
+ "note":"decided as a functional provenance contract: every session id / state / nonce is shown to be a fixed function (alphabet character selected by byte i modulo 62) of the bytes of ONE crypto/rand.Read made in that call, and of nothing else (not the time, not request data, not other identifiers); the only generator server.Check hands to the handler is the randomGenerator. The statistical quality of the draw (modulo bias 256 mod 62) is not decided"}
 P['C03']={
  "posts":{
   H+"retrieveTokens":["login_expiry","redirect_back","bind","consumed","count","view"],
